@@ -79,6 +79,18 @@ def run_c20(ctx):
     return [run_olh(ctx, 'ons', args)]
 
 
+def run_c12(ctx):
+    corpus = os.path.join(ctx['root'], 'corpus', 'C12')
+    if ctx['tier'] == 'quick':
+        return [run_olh(ctx, 'deleg', ['-histories', '500', '-blocks', '20', '-maxtxs', '8', '-iter', '3000', '-corpus', corpus])]
+    from concurrent.futures import ThreadPoolExecutor
+    def one(i):   # several derived seeds, one process each
+        c = dict(ctx, seed=ctx['seed'] * 7919 + i)
+        return run_olh(c, 'deleg', ['-histories', '2500', '-blocks', '30', '-maxtxs', '10', '-iter', '30000', '-corpus', corpus], name='deleg%d' % i)
+    with ThreadPoolExecutor(max_workers=4) as ex:
+        return list(ex.map(one, range(4)))
+
+
 SHELL_ASSUME = [
     'handlers are abstracted as arbitrary interaction-tree programs; the side conditions of the generic theorems (AllAimed, NoVset, EnvFree, GasBlind, VolDerived) are discharged for the real code by the regenerated fact tables (T3, `decide`) where a static fact exists, and otherwise exercised dynamically by the twin-replica engines',
     'the shell model is tied to app/controller.go by the `shell` engine: every ABCI call of generated histories (with CheckTx calls and restarts mixed in) is re-run by the Lean model with handlers abstracted to their observed writes; block-cache digests, results, index short-circuits, commit write logs (replayed into IAVL against the real application hash) and Info after restarts must agree',
@@ -166,4 +178,26 @@ PROPS = {
             'sub-names follow their parent (owner, expiry) only along histories in which every purchase / renew sees all sub-names of its target in the committed tree (histSees): the code does not iterate keys written in the current block (KF-C20-1, KF-C20-2); one-transaction-per-block histories satisfy it unconditionally',
         ],
         model_limits='nil and empty addresses are not distinguished (a JSON null owner cannot be produced by the message types\' own Marshal); names are ASCII; the division-by-zero crash for perBlockFees = 0 (not admitted by governance validation, only by a genesis file) is in the model as Err.crash but not executed on the implementation (C18 territory); write order inside one transaction (IAVL shape) is below this abstraction (C01/C09)'),
+    'C12': dict(
+        lean_modules=['OLP.Props.C12'], namespaces=['OLP.Props.C12'],
+        required_theorems=['pool_eq_active_plus_donations', 'pool_ge_active', 'pool_eq_active_without_donation',
+                           'undelegate_effect', 'undelegate_leaves_active_now', 'negative_amounts_refused', 'undelegate_negative_raises_active',
+                           'undelegate_own_active_always_succeeds',
+                           'begin_credits_exactly_log', 'paid_exactly_once_at_maturity_partial', 'never_early_or_twice_partial',
+                           'payments_nonneg_partial', 'reward_withdrawal_paid_exactly_once_at_maturity', 'reward_withdrawal_never_twice',
+                           'withdraw_within_balance', 'reward_balance_accounting', 'reward_withdraw_le_accrued',
+                           'prefix_range_exact_for_maturity', 'prefix_exact_hardcoded_maturity', 'prefix_collision_devnet_maturity',
+                           's17_early_and_double_payment', 's5_negative_undelegate_history', 's5_negative_reinvest_withdraws_unaccrued',
+                           's5_negative_withdraw_history', 'deliver_refines_history'],
+        run=run_c12, replay=replay_olh('deleg'), level='proof',
+        assumptions=[
+            'the delegation stores start empty (the generated genesis documents carry no delegation state; LoadDelegators / LoadState of a genesis with delegators is not modelled)',
+            'nobody acts as the pool address 00000000000000000001 (it is not the hash of a public key; DeliverTx without signature validation, S10, belongs to C03/C04)',
+            'every amount is an OLT amount: an unknown or foreign currency in undelegate / withdraw / reinvest ends in logger.Fatal (S18) and belongs to C18; the engine sends none',
+            'the fee step is outside the model: its outcome (charged amount = price x GasUsed, or failure) is an input of each correspondence step, checked for plausibility',
+            "the block's delegation reward T (handleDelegationRewards' DelegationRewards, read from the block_rewards event) is an input of the BeginBlock step (its computation belongs to C13); handleBlockRewards is assumed not to return early (it would skip matureDelegationRewards; only on 'never happen by design' errors)",
+            'the sign check of runUndelegate / runDeleWithdraw / runReinvest (commit 1db1c08) is the model switch Cfg.checkSign = true; its necessity is proved (counterexamples with checkSign = false, replayed on the implementation, which must refuse them)',
+            'clauses marked _partial hold for maturities 1..9 (S17: the un-separated range prefix; hard-coded maturity 4; latent known finding KF-C12-4)',
+        ],
+        model_limits='records are decoded values (address, height, integer); the key shapes enter through decPrefix/keyLt (decimal prefix and byte order of <height>_<addr>), tied to the real stores by the piter/rwiter steps; the fee pool, the rewards pool and validator rewards are not part of this model (C02/C13); the model branch poolMinus (pool cannot pay an undelegation) is proved unreachable (undelegate_own_active_always_succeeds) and is therefore not exercised by the correspondence'),
 }
